@@ -85,8 +85,12 @@ fn run_case(c: &Case, ctx: &mut Ctx) {
     }
     ctx.counters.entry("max_cpu_us".into()).and_modify(|v| *v = (*v).max(m.cpu_ns / 1000)).or_insert(m.cpu_ns / 1000);
     ctx.counters.entry("max_peak_kib".into()).and_modify(|v| *v = (*v).max((m.peak >> 10) as u64)).or_insert((m.peak >> 10) as u64);
-    if m.cpu_ns > CPU_LIMIT_NS {
-        ctx.violation(format!("cpu:{}", c.key), json!({"cpu_ms": m.cpu_ns / 1_000_000, "limit_ms": CPU_LIMIT_NS / 1_000_000}));
+    // every sixel sequence written out in the input may cost one picture of the largest accepted size (allocating and clearing 2 x 16 MiB:
+    // about 25 ms): the limit is linear in their number, i.e. in the length of the input
+    let images = c.input.windows(3).filter(|w| w == b"\x1bPq").count() as u64;
+    let cpu_limit = CPU_LIMIT_NS + images * 40_000_000;
+    if m.cpu_ns > cpu_limit {
+        ctx.violation(format!("cpu:{}", c.key), json!({"cpu_ms": m.cpu_ns / 1_000_000, "limit_ms": cpu_limit / 1_000_000}));
     }
     // an image of the largest size the engine accepts (2048 x 2048) costs 16 MiB as a picture and as much again while it is decoded;
     // inputs that carry images may hold a bounded number of them (at most 4 per macro invocation, 64 MiB kept on the screen)
